@@ -106,17 +106,19 @@ type SpecDB struct {
 	Ghosts  map[string][]GhostField // by type key "pkg.Type"
 	Files   []string
 	Consts  map[string]string
+	GhostVars map[string]string // name -> type
+	GlobalInvs []*AxiomSpec
 }
 
 func NewSpecDB() *SpecDB {
 	return &SpecDB{Funcs: map[string]*FuncSpec{}, Preds: map[string]*PredSpec{}, Tables: map[string]*TableSpec{},
-		SpecFns: map[string]*SpecFn{}, Ghosts: map[string][]GhostField{}, Consts: map[string]string{}}
+		SpecFns: map[string]*SpecFn{}, Ghosts: map[string][]GhostField{}, Consts: map[string]string{}, GhostVars: map[string]string{}}
 }
 
 var clauseKW = map[string]bool{"requires": true, "ensures": true, "ghostensures": true, "modifies": true, "decreases": true, "loop": true,
 	"inline": true, "trusted": true, "pure": true, "tag": true, "noframe": true, "opaque": true, "unclaimed": true, "let": true}
 var topKW = map[string]bool{"func": true, "functype": true, "extern": true, "pred": true, "table": true, "specfn": true,
-	"axiom": true, "lemma": true, "ghostfield": true, "iface": true, "const": true}
+	"axiom": true, "lemma": true, "ghostfield": true, "iface": true, "const": true, "ghostvar": true, "globalinv": true}
 
 type rawLine struct {
 	text string
@@ -396,6 +398,21 @@ func (db *SpecDB) LoadFile(path string, pkg string) error {
 				return fail("const syntax")
 			}
 			db.Consts[strings.TrimSpace(kv[0])] = strings.TrimSpace(kv[1])
+			cur = nil
+		case "globalinv":
+			name, body := splitColon(rest)
+			e, err := ParseExpr(body)
+			if err != nil {
+				return fail("%v", err)
+			}
+			db.GlobalInvs = append(db.GlobalInvs, &AxiomSpec{Name: pkg + "." + name, E: e, Src: body})
+			cur = nil
+		case "ghostvar":
+			f := strings.Fields(rest)
+			if len(f) != 2 {
+				return fail("ghostvar syntax: ghostvar name type")
+			}
+			db.GhostVars[f[0]] = f[1]
 			cur = nil
 		case "ghostfield":
 			// ghostfield Scanner.open int
